@@ -21,20 +21,16 @@
   * `multi_step_refines` / `multi_refines`: on every request, and by induction on every request
     SEQUENCE, the model does exactly what the reference does — new phase, new tables, tokens —
     unless the step is classified:
-      - `BlockFails` (defect D12, `multi_step_refines_failing`): an EXEC whose block has a failing
-        command. Phase and tables still coincide with the reference (rollback, idle). The tokens
-        are `*|q|` and the replies of the commands up to AND INCLUDING the first failing one,
-        nothing after: a prefix of the reference's |q| replies. `failing_reply_short_iff` says when
-        it is a proper one: `failing_not_last_is_short` — always when the failing command is not
-        the last (every in-domain command writes something, `command_replies_nonempty`) —,
-        `failing_last_is_exact` — never when it is the last. `exec_short_reply_deviates` is the
-        closed witness.
+      - `BlockFails` is NOT an exception any more (defect D12, repaired: `handleMulti` runs every queued command,
+        remembers the first error and returns it at the end): an EXEC whose block has a failing command is
+        exactly the reference's — idle, tables rolled back, `*|q|` and ALL |q| replies
+        (`multi_step_refines_failing`, `failing_block_reply_complete`; closed witness `exec_failing_block_agrees`).
       - `OutOfDomain`: the request is outside the parser model (`out_of_scope_iff`: non-ASCII name,
         number outside the numeric model, empty request; never a panic) or the block meets a
         command outside the command model's numeric domain (`RunRes.ood`): NO CLAIM by the wire
         model; `ood_block_no_claim` shows that the restriction is needed, `out_of_scope_inert` and
         `phase_is_own_history` what still holds.
-    `multi_refines_state` keeps (phase, tables) equal over sequences WITH failing blocks.
+    `multi_refines_indomain` is the same equality over sequences WITH failing blocks (only out-of-domain blocks excluded).
   * "On each connection independently … nor have their own commands pulled into it": the
     connection state is a value per connection; `connections_independent`,
     `phase_is_own_history` (the phase — the queue included — of a connection after ANY interleaving
@@ -74,44 +70,45 @@ theorem phaseOf_injective : ∀ st, WFConn st → ofPhase (phaseOf st) = st :=
 
 /-! ### 2. one request -/
 
-/-- REFINEMENT, one step: outside the two classifiers the model and the reference agree on the new
-phase, the new tables and every token. -/
+/-- REFINEMENT, one step: inside the model's domain the model and the reference agree on the new
+phase, the new tables and every token — also when the request is an EXEC whose block has a failing command
+(D12 repaired: no `¬ BlockFails` hypothesis). -/
 theorem multi_step_refines : ∀ (st : ConnState) (db : DB) (now : Int) (req : List Bytes) (r : Req),
-    WFConn st → classify req = some r → ¬ BlockFails st db now req → ¬ OutOfDomain st db now req →
+    WFConn st → classify req = some r → ¬ OutOfDomain st db now req →
     (phaseOf (handle st db now req).1, (handle st db now req).2.1, (handle st db now req).2.2)
       = refStep (phaseOf st) db now r := by
-  intro st db now req r hw hc hf ho
-  have h := (step_spec st db now req r hw hc).2
-  unfold StepSpec at h
-  rw [stepClass_clean_of st db now req r hc hf ho] at h
-  exact h
+  intro st db now req r hw hc ho
+  have h := step_refines st db now req r hw hc
+  unfold Refines at h
+  cases hcl : stepClass (phaseOf st) db now r with
+  | clean => simpa [hcl, implStep] using h
+  | fails => simpa [hcl, implStep] using h
+  | ood => exact absurd ((stepClass_ood_iff st db now req r hc).mp hcl) ho
 
-/-- D12, exactly. An EXEC whose block has a failing command: the connection is idle again with an
-empty slice, the tables are EXACTLY what they were, and the tokens are `*|q|` followed by the
-replies of the first `failIndex + 1` commands — those before the failing one and the failing one's
-own error — where `failIndex < |q|`. In the reference the phase and the tables are the same; its
-tokens are `*|q|` followed by all |q| replies. -/
+/-- The former D12 class, exactly. An EXEC whose block has a failing command: the connection is idle again
+with an empty slice, the tables are EXACTLY what they were, and the tokens are `*|q|` followed by ALL |q|
+replies — those before the failing command, its own error, and those of the commands after it (which ran
+on tables that are then rolled back). This is the reference's step. -/
 theorem multi_step_refines_failing : ∀ (st : ConnState) (db : DB) (now : Int) (req : List Bytes),
     WFConn st → BlockFails st db now req →
     handle st db now req =
-      ({}, db, .arrayHdr st.cmds.length ::
-        ((runBlock now st.cmds db).replies.take (failIndex now st.cmds db + 1)).flatten) ∧
-    failIndex now st.cmds db < st.cmds.length ∧
-    (refStep (phaseOf st) db now .exec).1 = .idle ∧ (refStep (phaseOf st) db now .exec).2.1 = db ∧
-    (refStep (phaseOf st) db now .exec).2.2 = .arrayHdr st.cmds.length :: (runBlock now st.cmds db).replies.flatten ∧
+      ({}, db, .arrayHdr st.cmds.length :: (runBlock now st.cmds db).replies.flatten) ∧
+    (phaseOf (handle st db now req).1, (handle st db now req).2.1, (handle st db now req).2.2)
+      = refStep (phaseOf st) db now .exec ∧
+    (runBlock now st.cmds db).ok = false ∧
     (runBlock now st.cmds db).replies.length = st.cmds.length := by
   intro st db now req hw hf
   have hc := hf.2.1
   have h := (step_spec st db now req .exec hw hc).2
   unfold StepSpec at h
   rw [(stepClass_fails_iff st db now req .exec hc).mpr hf] at h
-  obtain ⟨q, hq, _, hh, hlt, hok⟩ := h
+  obtain ⟨href, q, hq, _, hh, hok⟩ := h
   have hq' : q = st.cmds := by
     have := hf.1
     simp [phaseOf, this] at hq
     exact hq.symm
   subst hq'
-  refine ⟨hh, hlt, ?_, ?_, ?_, runBlock_length _ _ _⟩ <;> simp [hq, refStep, hok]
+  exact ⟨hh, href, hok, runBlock_length _ _ _⟩
 
 /-- the same as an instance of the refinement relation `Spec.Multi.Refines`, for every class -/
 theorem multi_step_refines_rel : ∀ (st : ConnState) (db : DB) (now : Int) (req : List Bytes) (r : Req),
@@ -128,53 +125,24 @@ theorem classes_are_classifiers : ∀ (st : ConnState) (db : DB) (now : Int) (re
     (stepClass (phaseOf st) db now r = .ood ↔ OutOfDomain st db now req) :=
   fun st db now req r hc => ⟨stepClass_fails_iff st db now req r hc, stepClass_ood_iff st db now req r hc⟩
 
-/-- the reply of a failing block differs from the reference's exactly when the commands AFTER the
-failing one have something to say -/
-theorem failing_reply_short_iff : ∀ (st : ConnState) (db : DB) (now : Int) (req : List Bytes),
+/-- the reply of a failing block is complete: `*|q|` and exactly |q| replies, the reference's tokens -/
+theorem failing_block_reply_complete : ∀ (st : ConnState) (db : DB) (now : Int) (req : List Bytes),
     WFConn st → BlockFails st db now req →
-    ((handle st db now req).2.2 ≠ (refStep (phaseOf st) db now .exec).2.2 ↔
-      ((runBlock now st.cmds db).replies.drop (failIndex now st.cmds db + 1)).flatten ≠ []) := by
+    (handle st db now req).2.2 = (refStep (phaseOf st) db now .exec).2.2 ∧
+    (handle st db now req).2.2 = .arrayHdr st.cmds.length :: (runBlock now st.cmds db).replies.flatten ∧
+    (runBlock now st.cmds db).replies.length = st.cmds.length := by
   intro st db now req hw hf
   have h := multi_step_refines_failing st db now req hw hf
-  rw [h.1, h.2.2.2.2.1]
-  exact short_reply_iff _ _ _
-
-/-- … in particular nothing is missing when the failing command is the last of the block -/
-theorem failing_last_is_exact : ∀ (st : ConnState) (db : DB) (now : Int) (req : List Bytes),
-    WFConn st → BlockFails st db now req → failIndex now st.cmds db + 1 = st.cmds.length →
-    (phaseOf (handle st db now req).1, (handle st db now req).2.1, (handle st db now req).2.2)
-      = refStep (phaseOf st) db now .exec := by
-  intro st db now req hw hf hl
-  have h := multi_step_refines_failing st db now req hw hf
-  have hlen := h.2.2.2.2.2
-  have htake : (runBlock now st.cmds db).replies.take (failIndex now st.cmds db + 1)
-      = (runBlock now st.cmds db).replies := by
-    apply List.take_of_length_le; omega
-  rw [h.1, htake]
-  rw [Prod.ext_iff, Prod.ext_iff]
-  exact ⟨h.2.2.1.symm ▸ rfl, h.2.2.2.1.symm, h.2.2.2.2.1.symm⟩
+  refine ⟨?_, by rw [h.1], h.2.2.2⟩
+  have := h.2.1
+  rw [Prod.ext_iff, Prod.ext_iff] at this
+  exact this.2.2
 
 /-- every command inside the command model's domain writes at least one token (all 98 `Run`
 methods, both runners) -/
 theorem command_replies_nonempty : ∀ (c : ParsedCmd) (r : Runner) (now : Int) (db : DB) (o : Option Bytes),
     (run c r now db o).ood = false → (run c r now db o).toks ≠ [] :=
   run_toks_ne_nil
-
-/-- … and IS too short as soon as the failing command is not the last one (and the command after
-it is inside the command model's domain): the client is promised |q| replies and gets fewer. -/
-theorem failing_not_last_is_short : ∀ (st : ConnState) (db : DB) (now : Int) (req : List Bytes) (c : ParsedCmd),
-    WFConn st → BlockFails st db now req →
-    st.cmds[failIndex now st.cmds db + 1]? = some c →
-    (run c (Model.tx true) now (blockDb now (st.cmds.take (failIndex now st.cmds db + 1)) db) none).ood = false →
-    (handle st db now req).2.2 ≠ (refStep (phaseOf st) db now .exec).2.2 ∧
-    (handle st db now req).2.2 <+: (refStep (phaseOf st) db now .exec).2.2 := by
-  intro st db now req c hw hf hc hood
-  refine ⟨(failing_reply_short_iff st db now req hw hf).mpr ?_, ?_⟩
-  · refine drop_flatten_ne_nil _ _ _ ?_ (run_toks_ne_nil c _ now _ none hood)
-    rw [runBlock_reply, hc]; rfl
-  · have h := multi_step_refines_failing st db now req hw hf
-    rw [h.1, h.2.2.2.2.1]
-    exact (List.prefix_cons_inj _).mpr (take_flatten_prefix _ _)
 
 /-- a request outside the parser model's domain leaves the connection and the tables alone and
 writes nothing -/
@@ -208,9 +176,15 @@ theorem multi_refines : ∀ (reqs : List (Int × List Bytes)) (as : List (Int ×
       = refRun (phaseOf st) db as :=
   run_refines_clean
 
-/-- … and with failing blocks ALLOWED (only out-of-domain blocks excluded): the final phase and
-the final tables are still the reference's, the connection is still well-formed, and request by
-request the tokens are equal (clean step) or the same header and a prefix (failing block). -/
+/-- … and with failing blocks ALLOWED (only out-of-domain blocks excluded) the same equality holds: the final
+phase, the final tables and the tokens of every single request are those of the reference run. -/
+theorem multi_refines_indomain : ∀ (reqs : List (Int × List Bytes)) (as : List (Int × Req)) (st : ConnState) (db : DB),
+    WFConn st → classifyAll reqs = some as → InDomainRun (phaseOf st) db as →
+    (phaseOf (implRun st db reqs).1, (implRun st db reqs).2.1, (implRun st db reqs).2.2)
+      = refRun (phaseOf st) db as :=
+  run_refines_indomain
+
+/-- the same, clause by clause, with the well-formedness of the final connection state -/
 theorem multi_refines_state : ∀ (reqs : List (Int × List Bytes)) (as : List (Int × Req)) (st : ConnState) (db : DB),
     WFConn st → classifyAll reqs = some as → InDomainRun (phaseOf st) db as →
     WFConn (implRun st db reqs).1 ∧
@@ -462,31 +436,31 @@ def seqRefuse : List (Int × List Bytes) :=
 /-- the state before the EXEC of `seqShort` -/
 def stShort : ConnState := { inMulti := true, cmds := [pc [b "INCR", b "k2"], pc [b "SET", b "k1", b "v"]] }
 
-/-- D12: the EXEC announces two replies and delivers one. The reference delivers two (the error
-and the `+OK` of the SET, whose effect it then drops with the rest of the private copy); phase and
-tables agree. The step is in the classifier, so this contradicts nothing above; it shows that
-`multi_step_refines` is FALSE without `¬ BlockFails`. -/
-theorem exec_short_reply_deviates :
+/-- D12 repaired: the EXEC announces two replies and delivers two — the error and the `+OK` of the SET, whose
+effect is then dropped with the rest of the block — exactly as the reference; phase and tables agree. The step
+is still in the class `BlockFails`; `multi_step_refines` needs no hypothesis about it any more. -/
+theorem exec_failing_block_agrees :
     WFConn stShort ∧ classify [b "EXEC"] = some .exec ∧ BlockFails stShort db0 2002 [b "EXEC"] ∧
-    handle stShort db0 2002 [b "EXEC"] = ({}, db0, [.arrayHdr 2, .err (b "key type mismatch (incr)")]) ∧
+    handle stShort db0 2002 [b "EXEC"]
+      = ({}, db0, [.arrayHdr 2, .err (b "key type mismatch (incr)"), .str (b "OK")]) ∧
     refStep (phaseOf stShort) db0 2002 .exec
       = (.idle, db0, [.arrayHdr 2, .err (b "key type mismatch (incr)"), .str (b "OK")]) ∧
     (phaseOf (handle stShort db0 2002 [b "EXEC"]).1, (handle stShort db0 2002 [b "EXEC"]).2.1,
-        (handle stShort db0 2002 [b "EXEC"]).2.2) ≠ refStep (phaseOf stShort) db0 2002 .exec := by
+        (handle stShort db0 2002 [b "EXEC"]).2.2) = refStep (phaseOf stShort) db0 2002 .exec := by
   decide +kernel
 
-/-- the whole sequence: it reaches `stShort`, the last reply is the short one, the tables are
+/-- the whole sequence: it reaches `stShort`, the last reply is the complete one, the tables are
 untouched, the run is NOT clean but in the domain -/
 example : implRun {} db0 seqShort
       = ({}, db0, [[.str (b "OK")], [.str (b "QUEUED")], [.str (b "QUEUED")],
-                   [.arrayHdr 2, .err (b "key type mismatch (incr)")]]) ∧
+                   [.arrayHdr 2, .err (b "key type mismatch (incr)"), .str (b "OK")]]) ∧
     implRun {} db0 (seqShort.take 3) = (stShort, db0, [[.str (b "OK")], [.str (b "QUEUED")], [.str (b "QUEUED")]]) ∧
     (∃ as, classifyAll seqShort = some as ∧ ¬ CleanRun .idle db0 as ∧ InDomainRun .idle db0 as ∧
       runClasses .idle db0 as = [.clean, .clean, .clean, .fails]) := by
   refine ⟨by decide +kernel, by decide +kernel, _, rfl, ?_⟩
   decide +kernel
 
-/-- `multi_refines_state` instantiated on it: phase and tables as the reference, tokens related -/
+/-- `multi_refines_state` / `multi_refines_indomain` instantiated on it: phase, tables and tokens as the reference -/
 example : ∃ as, classifyAll seqShort = some as ∧
     phaseOf (implRun {} db0 seqShort).1 = (refRun .idle db0 as).1 ∧
     (implRun {} db0 seqShort).2.1 = (refRun .idle db0 as).2.1 ∧
@@ -495,7 +469,7 @@ example : ∃ as, classifyAll seqShort = some as ∧
   have h := multi_refines_state seqShort _ {} db0 (by decide) rfl (by decide +kernel)
   exact ⟨h.2.1, h.2.2.1, h.2.2.2⟩
 
-/-- the failing command LAST (`failing_last_is_exact`): classified, rolled back, and the reply is
+/-- the failing command LAST: classified, rolled back, and the reply is
 complete — equal to the reference's -/
 example : (∃ as, classifyAll seqLast = some as ∧ runClasses .idle db0 as = [.clean, .clean, .clean, .fails] ∧
       (phaseOf (implRun {} db0 seqLast).1, (implRun {} db0 seqLast).2.1, (implRun {} db0 seqLast).2.2)
